@@ -87,7 +87,9 @@ func IsValuable(log *types.ChangeLog) bool {
 		newVal := log.NewVal.([]byte)
 		valuable = bytes.Compare(oldVal, newVal) != 0
 	case CodeLog:
-		valuable = log.NewVal != nil && len(log.NewVal.(types.Code)) > 0
+		// setting empty code is a change too if it replaces some code
+		old, _ := log.OldVal.(*replacedCode)
+		valuable = (log.NewVal != nil && len(log.NewVal.(types.Code)) > 0) || (old != nil && len(old.code) > 0)
 	case AddEventLog:
 		valuable = log.NewVal != (*types.Event)(nil)
 	case SuicideLog:
